@@ -259,6 +259,12 @@ def generate(req):
         c.execute("create index ix_alter_d on t_alter(d)")
 
     if "misc" in feats:
+        # TEXT whose bytes are not valid UTF-8 (SQLite stores and returns them verbatim)
+        c.execute("create table t_rawtext(id INTEGER PRIMARY KEY, s TEXT, n TEXT COLLATE NOCASE)")
+        c.execute("create index ix_rawtext_s on t_rawtext(s)")
+        c.execute("create index ix_rawtext_n on t_rawtext(n)")
+        raw = [b"caf\xe9", b"\xff", b"\xc3", b"a\xc0\xafb", b"\xed\xa0\x80", b"plain", b"\xf0\x9f\x98", b"Caf\xe9", b"caf\xc3\xa9", b"\xfe\xff", b"A\x80", b"a\x80"]
+        c.executemany("insert into t_rawtext(s, n) values(cast(? as text), cast(? as text))", [(x, x) for x in raw])
         c.execute("create table t_empty(x, y)")
         c.execute("create index ix_empty_x on t_empty(x)")
         # real columns that carry the names of the rowid keywords (only _rowid_ still means the rowid)
@@ -396,6 +402,12 @@ def generate_decode(req):
     fl = floats_grid() + [bits(r.getrandbits(64)) for _ in range(200)]
     fl = [f for f in fl if f == f]  # NaN is stored as NULL
     c.executemany("insert into d_floats values(?,?,?)", [(i, f, f) for i, f in enumerate(fl)])
+    # TEXT that is not valid UTF-8, in-page and spilled: the bytes come back verbatim
+    c.execute("create table d_rawtext(id INTEGER PRIMARY KEY, s TEXT)")
+    c.execute("create index ix_d_rawtext on d_rawtext(s)")
+    rawt = [b"caf\xe9", b"\xff", b"\xc3", b"a\xc0\xafb", b"\xed\xa0\x80", b"\xf0\x9f\x98", b"\xfe\xff\x00x", b"ok",
+            b"\xe9" * (ps + 50), b"z\xff" * ps, (b"valid \xc3\xa9 " * 40) + b"\xc3"]
+    c.executemany("insert into d_rawtext(s) values(cast(? as text))", [(x,) for x in rawt])
     ncol = int(prof.get("wide_cols", 200))
     c.execute("create table d_wide(%s)" % ",".join("c%d" % i for i in range(ncol)))
     g = G(seed, prof)
